@@ -1123,6 +1123,12 @@ func checkLookupAndApplyAtomic(c *Ctx, rule string) {
 							if xv, ok := x.(ssa.Value); ok && isSwsLookup(xv) {
 								found = true
 							}
+							// a method of the table's own (named map) type, called on the table: a lookup on its receiver
+							if lk, ok := x.(*ssa.Lookup); ok && len(g.Params) > 0 && lk.X == ssa.Value(g.Params[0]) && len(call.Call.Args) > 0 {
+								if f, _ := loadedField(call.Call.Args[0]); f == sws {
+									found = true
+								}
+							}
 						})
 						if found {
 							lookupAt, viaHelper = call, true
